@@ -85,7 +85,7 @@ def differential(ctx, impl_cmd, model_cmd, cases, timeout=300, env=None, label="
     iout, icr = run_batch(impl_cmd, cases, timeout=timeout, env=env)
     mout, mcr = ({}, {})
     if model_cmd:
-        mout, mcr = run_batch(model_cmd, cases, timeout=timeout)
+        mout, mcr = run_batch(model_cmd, cases, timeout=max(timeout, 1800), stall=900)      # the model may be slow on big inputs: no stall kill
         if mcr:
             i = sorted(mcr)[0]
             ctx.corr_broken.append("model driver failed on case %s: %s" % (cases[i].ops[:3], str(mcr[i][1])[-300:]))
